@@ -288,7 +288,9 @@ def _gen_malformed(rng, names):
 
 def _gen_status(rng, names):
     """a clearly feasible / clearly infeasible pair solved for real, then the status string is
-    overwritten before the code reads it: the mapping status → bool is what is observed"""
+    overwritten before the code reads it: the mapping status → bool is what is observed.  The geometry
+    is chosen in `_run_status` so that its certified truth equals the modelled answer for the status
+    (`feasible` only matters for the ellipsoidal status None, where the code gives no answer)."""
     kind = rng.choice(["rect", "ball"])
     status = rng.choice(["optimal", "optimal_inaccurate", "infeasible", "infeasible_inaccurate",
                          "unbounded", "unbounded_inaccurate", "user_limit", None])
@@ -721,7 +723,9 @@ def _compare(ctx, case, out, vp, v0, vm, label, wide=None):
     status = out[2][-1].split(":", 1)[1] if out[2] else "?"
     if fallback:
         ctx.count(label + "_code_took_scs_fallback")
-    if status not in ("optimal", "infeasible"):
+    if not out[2]:
+        ctx.count(label + "_no-solve-shortcut_info")
+    elif status not in ("optimal", "infeasible"):
         ctx.count(label + "_code_saw_status_" + status)
     robust = "1" if vp == "1" else ("0" if vm == "0" else None)
     if robust is None:
@@ -735,9 +739,14 @@ def _compare(ctx, case, out, vp, v0, vm, label, wide=None):
     if got == (robust == "1"):
         return True
     # ---- the code's answer is wrong for a configuration that is robust with the margin tau
-    cause = "scs-fallback" if fallback else ("undecided-status" if status not in ("optimal", "infeasible") else "other")
+    if not out[2]:
+        cause = "no-solve"  # answered without any solver call: no solver tolerance applies, band TAU
+        ctx.count(label + "_wrong_without_solve")
+    else:
+        cause = "scs-fallback" if fallback else (
+            "undecided-status" if status not in ("optimal", "infeasible") else "other")
     w = None
-    if wide is not None and (label != "rect" or cause == "scs-fallback"):
+    if wide is not None and cause != "no-solve" and (label != "rect" or cause == "scs-fallback"):
         # ellipsoid decisions: the code's own procedure includes the SCS fallback (eps ≈ 1e-4) and maps
         # undecided statuses to True, so their numerical tolerance is TAU_SCS·scale — a wrong answer whose
         # certified margin is below that is recorded as information, not as a violation.  The LP for
@@ -961,31 +970,56 @@ def _run_ell(ctx, case):
     ctx.case_done(case, nt, canon=["ell", W, case["c1"], case["L1"], a1, case["c2"], case["L2"], a2, sv])
 
 
+def _status_maps_to(region, status):
+    """the modelled mapping solver status → answer of `is_covered` (None = no answer: the ellipsoidal
+    code raises on `"infeasible" in None`)"""
+    if region == "rect":
+        return status is None or status == "optimal"
+    return None if status is None else ("infeasible" not in status)
+
+
 def _run_status(ctx, case):
     """force the status string the code reads after a real solve; the observed mapping status → bool
-    must be the one the model assumes (rectangles: True iff status is None or "optimal";
-    ellipsoids: False iff the status contains "infeasible")"""
+    must be the modelled one (rectangles: True iff status is None or "optimal"; ellipsoids: False iff
+    the status contains "infeasible").
+
+    A status is only ever forced on a configuration whose CERTIFIED truth (Lean verdict, with margin)
+    equals the answer the modelled mapping gives for that status, so a sound implementation cannot
+    disagree with the expectation however it reaches its verdict (e.g. a witness shortcut that never
+    calls the solver).  The `feasible` field of the case is used only where the mapping gives no
+    answer (ellipsoids, status None)."""
     import cvxpy as cp
     from vopy.confidence_region import EllipsoidalConfidenceRegion, RectangularConfidenceRegion
 
     W = [[1.0, 0.0], [0.0, 1.0]]
     order = real_order(W)
-    lo, hi = (np.array([2.0, 2.0]), np.array([0.0, 0.0])) if case["feasible"] else \
-        (np.array([0.0, 0.0]), np.array([2.0, 2.0]))
-    # region 1 at `hi`-side when infeasible: R₂ must dominate R₁
-    if case["region"] == "rect":
-        R1 = RectangularConfidenceRegion(2, hi.copy(), hi + 0.5)
-        R2 = RectangularConfidenceRegion(2, lo.copy(), lo + 0.5)
-    else:
-        R1 = EllipsoidalConfidenceRegion(2, hi.copy(), np.eye(2), 0.25)
-        R2 = EllipsoidalConfidenceRegion(2, lo.copy(), np.eye(2), 0.25)
     forced = case["status"]
+    region = case["region"]
+    expect = _status_maps_to(region, forced)
+    truth = bool(case["feasible"]) if expect is None else expect
+    # region 2 sits 2 above region 1 (coverable) or 2 below it (not coverable): margins ≥ 1
+    p1, p2 = (np.array([0.0, 0.0]), np.array([2.0, 2.0])) if truth else \
+        (np.array([2.0, 2.0]), np.array([0.0, 0.0]))
+    tau = core.q(1e-3)
+    if region == "rect":
+        R1 = RectangularConfidenceRegion(2, p1.copy(), p1 + 0.5)
+        R2 = RectangularConfidenceRegion(2, p2.copy(), p2 + 0.5)
+        cert = ctx.ask("rect", core.qmat(W), core.qvec(p1), core.qvec(p1 + 0.5), core.qvec(p2),
+                       core.qvec(p2 + 0.5), "0", tau).split(",")
+    else:
+        R1 = EllipsoidalConfidenceRegion(2, p1.copy(), np.eye(2), 0.25)
+        R2 = EllipsoidalConfidenceRegion(2, p2.copy(), np.eye(2), 0.25)
+        cert = ctx.ask("ball", core.qmat(W), core.qvec(p1), core.q(0.25), core.qvec(p2), core.q(0.25), "0",
+                       tau).split(",")
+    if len(cert) != 3 or not ((truth and cert[0] == "1") or (not truth and cert[2] == "0")):
+        raise RuntimeError(f"status case: the model did not certify the intended truth: {cert}")
     orig = cp.Problem.solve
-    calls = {"n": 0}
+    calls = {"n": 0, "first_raised": False}
 
     def fake(self, *a, **k):
         calls["n"] += 1
         if case["first_raises"] and calls["n"] == 1:
+            calls["first_raised"] = True
             raise cp.error.SolverError("forced by the harness")
         r = orig(self, *a, **k)
         self._status = forced
@@ -996,22 +1030,35 @@ def _run_status(ctx, case):
         out = _call_real(order, R1, R2, 0.0)
     finally:
         cp.Problem.solve = orig
-    if case["region"] == "rect":
-        expect = forced is None or forced == "optimal"
-    else:
-        expect = None if forced is None else ("infeasible" not in forced)
-    ctx.count(f"status_{case['region']}_{forced}")
-    if case["first_raises"]:
+    ctx.count(f"status_{region}_{forced}")
+    if calls["n"] == 0:
+        # the implementation answered without any solve: the forced status never existed, only the
+        # certified truth counts — a wrong verdict here is a property violation like any other
+        if out[:2] == ("ok", truth):
+            ctx.count("no-solve-shortcut_info")
+        else:
+            lab = "rect" if region == "rect" else "ball"
+            key = lab + ("-false-on-covered" if truth else "-true-on-uncovered") if out[0] == "ok" else \
+                ("crash:" + str(out[1]))
+            ctx.violation(key, "is_covered answered without calling the solver and the answer contradicts the "
+                          "certified verdict (margin ≥ 1e-3)", case, kind="R",
+                          detail={"code": out[:2], "certified": cert})
+        ctx.case_done(case, False)
+        return
+    if calls["first_raised"]:
+        # the first solve was invoked and raised SolverError: the documented fallback is a second solve
         ctx.count("status_fallback_scs_path")
         if calls["n"] != 2:
             ctx.violation("status-no-fallback", "SolverError of the first solve did not lead to the SCS retry",
-                          case, kind="F", detail={"calls": calls["n"], "out": out})
+                          case, kind="F", detail={"calls": calls["n"], "out": out[:2]})
     if expect is None:
         # ellipsoids with status None: `"infeasible" in None` raises TypeError in the code; an outcome, not compared
         ctx.count("status_ell_None_outcome_" + out[0])
     elif out[:2] != ("ok", expect):
-        ctx.violation(f"status-map:{case['region']}:{forced}", "mapping of the solver status to the boolean "
-                      "answer differs from the modelled one", case, kind="F", detail={"code": out, "expected": expect})
+        ctx.violation(f"status-map:{region}:{forced}", "mapping of the solver status to the boolean "
+                      "answer differs from the modelled one (the forced status agrees with the certified "
+                      "truth of this configuration)", case, kind="F",
+                      detail={"code": out[:2], "expected": expect, "certified": cert})
     ctx.case_done(case, False)
 
 
